@@ -147,6 +147,10 @@ func (f *fakeIdP) idToken(cb codeBehaviour) string {
 		c["iss"] = "http://evil.example"
 	case "wrongaud":
 		c["aud"] = "someone-else"
+	case "wrongaudazp":
+		// issued to another application, merely naming this client as authorised party
+		c["aud"] = []string{"other-app", "account"}
+		c["azp"] = f.clientID
 	case "expired":
 		// alternately just expired and long expired: no grace period is part of the property
 		f.mu.Lock()
